@@ -182,7 +182,7 @@ pub fn c08_q_text_custom_spacing() {
 /// complete draws of degenerate objects (zero sizes, coincident vertices, empty polyline, widths
 /// larger than the shape, dotted strokes) on the native target: concrete objects, symbolic style
 macro_rules! c08_degenerate {
-    ($name:ident, $style:expr) => { c08_degenerate!($name, $style, 7); };
+    ($name:ident, $style:expr) => { c08_degenerate!($name, $style, 15); };
     ($name:ident, $style:expr, $grp:expr) => {
 #[cfg_attr(kani, kani::proof, kani::unwind(40))]
 pub fn $name() {
@@ -208,6 +208,8 @@ pub fn $name() {
     if $grp & 2 != 0 {
     Triangle::new(p, p, p).into_styled(st).draw(&mut t).unwrap();
     Triangle::new(p, p, Point::new(4, 1)).into_styled(st).draw(&mut t).unwrap();
+    }
+    if $grp & 8 != 0 {
     Line::new(p, p).into_styled(st).draw(&mut t).unwrap();
     Polyline::new(&[]).into_styled(st).draw(&mut t).unwrap();
     Polyline::new(&[p]).into_styled(st).draw(&mut t).unwrap();
@@ -226,15 +228,17 @@ c08_degenerate!(c08_q_degenerate_w1_both, style(1, StrokeAlignment::Inside, Some
 #[cfg(feature = "thorough")]
 c08_degenerate!(c08_t_degenerate_w2_stroke_boxes, style(2, StrokeAlignment::Center, None, Some(Gray8::new(2))), 1);
 #[cfg(feature = "thorough")]
-c08_degenerate!(c08_t_degenerate_w2_stroke_lines, style(2, StrokeAlignment::Center, None, Some(Gray8::new(2))), 2);
+c08_degenerate!(c08_t_degenerate_w2_stroke_lines, style(2, StrokeAlignment::Center, None, Some(Gray8::new(2))), 10);
 #[cfg(feature = "thorough")]
 c08_degenerate!(c08_t_degenerate_w5_stroke_boxes, style(5, StrokeAlignment::Center, None, Some(Gray8::new(2))), 1);
 #[cfg(feature = "thorough")]
-c08_degenerate!(c08_t_degenerate_w5_stroke_lines, style(5, StrokeAlignment::Center, None, Some(Gray8::new(2))), 2);
+c08_degenerate!(c08_t_degenerate_w5_stroke_polylines, style(5, StrokeAlignment::Center, None, Some(Gray8::new(2))), 8);
+#[cfg(feature = "thorough")]
+c08_degenerate!(c08_t_degenerate_w5_stroke_triangles, style(5, StrokeAlignment::Center, None, Some(Gray8::new(2))), 2);
 #[cfg(feature = "thorough")]
 c08_degenerate!(c08_t_degenerate_w2_outside_boxes, style(2, StrokeAlignment::Outside, Some(Gray8::new(1)), Some(Gray8::new(2))), 1);
 #[cfg(feature = "thorough")]
-c08_degenerate!(c08_t_degenerate_w2_outside_lines, style(2, StrokeAlignment::Outside, Some(Gray8::new(1)), Some(Gray8::new(2))), 2);
+c08_degenerate!(c08_t_degenerate_w2_outside_lines, style(2, StrokeAlignment::Outside, Some(Gray8::new(1)), Some(Gray8::new(2))), 10);
 
 // (zero-sized arcs/sectors with strokes wider than 1: symbolic execution of the thick arc iterators ran out
 // of memory (16 GB) -> only widths 0 and 1 above)
